@@ -17,7 +17,7 @@ RULE = ("'prim' cases: quantise_fwd / quantise_bwd on random tensors, formats an
         "attention boundaries; FPFormat.quantise calls are logged (E, M, rounding, srbits). The lossless pair E8M23 must reproduce "
         "the untransformed module bit for bit. 'root' cases: the root module itself is a torch.nn layer. Every second program case calls the transformed module AGAIN after another transformed module made its first call (TorchDynamo reset -> recompilation): same quantise-call count, bit-identical outputs and gradients. 'repeat' cases: 12 fresh "
         "instances of ONE module class transformed in one process. Range-only formats (M=23, few exponent bits) included. Non-trivial = program has a "
-        "linear or attention op and a lossy format; distinct = (emitted source, format pair). Every other program case calls the transformed module under torch.no_grad(): forward values equal those with autograd recording (1e-5) and quantise calls were made.")
+        "linear or attention op and a lossy format; distinct = (emitted source, format pair). Every other program case calls the transformed module under torch.no_grad(): forward values equal those with autograd recording (1e-5) and quantise calls were made. A third of the cases feed a data batch (inputs without requires_grad), a fifth freeze some parameters, a quarter make a rejected call (wrong number of arguments, caught) before the first valid one.")
 ASSUMPTIONS = ["FPFormat.quantise is as established by C13/C14", "torch.randint pinned by a shape-keyed deterministic source on both sides"]
 IMPORTS = ["unit_scaling.formats", "unit_scaling.transforms._simulate_format", "unit_scaling.transforms.utils", "unit_scaling.transforms"]
 REQUIRED_MONITORS = ["prim:checked", "programs:transformed", "outputs:compared", "grads:compared", "lossless:bit-compared", "fx-path:compared",
